@@ -192,6 +192,26 @@ def end_points(rep, F, G):
 def run(args):
     rep = C.Report("C15", "other", "must-pass-through range checks, exact polynomial table of smoothing_phi, SLERP term (R-FWD)")
     n_fn = n_phi = n_end = 0
+    # R-SERIES.slerp: semantic form of the SLERP clause (one template for all groups; evaluated on SO2, SE2 and SO3)
+    from . import rules_series as RS
+    sem = {}
+    for sv in ("SO2", "SE2", "SO3"):
+        try:
+            sem[sv] = RS.slerp_semantic(sv)
+        except C.AnalysisBroken as e:
+            rep.broke(str(e))
+            sem[sv] = (None, str(e), 0)
+    for sv, (ok_, detail, cells) in sem.items():
+        if ok_ is None:
+            continue
+        rep.ok(max(0, cells - (0 if ok_ else 1)))
+        if not ok_:
+            rep.fail(C.Finding("C15", "R-SERIES.slerp", "interpolate_slerp<%s>" % sv,
+                               "with A = exp(e x), B = A exp(e y) and symbolic tau the matrix of interpolate_slerp(A, B, tau) is not T(A) expm(tau hat(log(A^-1 B))) through order 3: %s" % detail, None, None))
+    rep.floor("slerp_semantic_cells", sum(c_ for _o, _d, c_ in sem.values()), 34)
+
+    def semantic_ok():
+        return all(sem.get(sv, (None,))[0] is True for sv in ("SO2", "SE2", "SO3"))
     for v in FX.variants():
         F = FX.get(v)
         gs = [g for g in C04.owning(F, "manif::LieGroupBase") if C04._is_variant_group(g, v)]
@@ -235,7 +255,11 @@ def run(args):
                 ret, outs, eff = C04.evaluate(F, f, None, ["A", "B", "t"])
                 want = "(mul (log (compose (inverse A) B)) t)"
                 ok = ret in ("(compose A (exp %s))" % want, "(compose A (exp (mul t (log (compose (inverse A) B)))))")
-                rep.obligation(ok, lambda: C.Finding("C15", "R-FWD.slerp", f["name"], "interpolate_slerp normalises to %s, expected A*exp(t*log(A^-1*B))" % ret, f["file"], f["line"]))
+                if not ok and semantic_ok():
+                    # another spelling of the same map (e.g. exp(t*log(B*A^-1))*A): accepted because the semantic form holds
+                    rep.observations.append("interpolate_slerp<%s> is spelled %s; accepted: R-SERIES.slerp holds" % (G, ret[:120]))
+                    ok = True
+                rep.obligation(ok, lambda: C.Finding("C15", "R-FWD.slerp", f["name"], "interpolate_slerp normalises to %s, expected A*exp(t*log(A^-1*B)), and the semantic check R-SERIES.slerp does not hold either" % ret, f["file"], f["line"]))
             except (TE.Unsupported, TE.Raised) as e:
                 rep.broke("R-FWD cannot normalise interpolate_slerp<%s>: %s" % (G, e))
     n_phi = phi_table(rep, FX.get(FX.variants()[0]))
@@ -246,12 +270,13 @@ def run(args):
         "R-MPT.range: in interpolate_slerp / _cubic / _smooth a check that raises when t is outside [0,1] precedes every other use of t (scalar copies of t are aliases)",
         "R-MPT.dispatch: interpolate() has one returning case per INTERP_METHOD enumerator, forwarding to the matching routine, and raises on any other value",
         "R-TABLE.phi (exact, sympy over Q): for each supported degree phi(0)=0, phi(1)=1, phi monotone on [0,1], first `degree` derivatives vanish at both ends; degrees outside 1..4 raise",
-        "R-FWD.slerp: interpolate_slerp(A,B,t) normalises to A*exp(t*log(A^-1*B))",
+        "R-FWD.slerp: interpolate_slerp(A,B,t) normalises to A*exp(t*log(A^-1*B)) (another spelling is accepted only if R-SERIES.slerp holds)",
+        "R-SERIES.slerp (semantic, spelling-independent): for SO2, SE2, SO3, with A = exp(e x), B = A exp(e y) and a symbolic parameter tau, the code of interpolate_slerp interpreted over truncated power series gives T(m(tau)) = T(A) sum_k (tau e hat(y))^k/k! through order 3 cell by cell, i.e. log(A^-1 m(tau)) = tau log(A^-1 B) (the geodesic law) in every direction",
         "R-END: for SLERP, CUBIC and CNSMOOTH (degrees 1..4) the group term of the routine (generic layer inlined, R-FWD), with the scalar weights evaluated exactly at t = 0 and t = 1, reduces in the free group over {A, B, exp(v)} to A resp. B using only: associativity, X X^-1 = e, exp(0) = e, exp(-v) = exp(v)^-1, exp(log W) = W, 0*v = 0, 1*v = v - for arbitrary end velocities ta, tb and every group",
     ]
     rep.units = ["%s_double_own_funcs_debug" % v for v in FX.variants()]
     rep.trusted = ["clang AST", "sympy polynomial arithmetic"]
     rep.assumptions = ["the end-point identities are decided as identities of group terms (R-END); their floating-point residual is not",
-                       "NOT decided: equivariance and the geodesic law at interior parameters as numerical statements"]
+                       "NOT decided: equivariance; the geodesic law beyond order 3 at the identity and as a numerical statement"]
     rep.checker_cmd = "manif-sa plugin (mode=funcs) + engine/check_c15.py + termeval.py (R-FWD) + endpoint.py (R-END)"
     return rep.finish()
